@@ -9,9 +9,9 @@ Definition fix_step_i (st : N -> bool) (f : file) (raw : list diag) :=
   fix_step IGNORE_COMMENT code_name st unused_ignore_code bare_ignore_code f raw.
 Definition emit16_i (st : N -> bool) (f : file) (raw : list diag) :=
   emit IGNORE_COMMENT code_name st f unused_ignore_code bare_ignore_code raw.
-(* the guard and its clauses, evaluated on the initial state *)
+(* the guard of C16_add_ignores_terminates, evaluated on the initial state, and whether the step
+   for line ln would use a trailing comment *)
 Definition clauses_i (st : N -> bool) (f : file) (raw : list diag) :=
-  let M := main IGNORE_COMMENT code_name st f raw in
-  (fix_guardb st f raw, base_okb f raw, forallb (pos_okb f) M, forallb (prev_okb f) M, forallb (one_okb M) M).
+  (fix_guardb f raw, forallb (fun d => d_obey d) raw).
 Definition apply_i := ApplyGen.apply_changes.
 Extraction "c16model.ml" fix_step_i emit16_i clauses_i apply_i mem_N.
